@@ -95,6 +95,7 @@ func runWorker(cfg workerCfg) int {
 				wo.Notes[k]++
 			}
 			for _, v := range res.Violations {
+				v.StreamSeed, v.Idx, v.Shard, v.NShards = seed, idx, cfg.shard, cfg.nshards
 				key := v.Oracle + "|" + v.Site
 				wo.ViolCount[key]++
 				if wo.ViolCount[key] <= 2 && len(wo.Violations) < cfg.maxViols {
@@ -228,7 +229,7 @@ func execSelf(timeout time.Duration, env []string, args ...string) ([]byte, []by
 // serialised run can be masked by happens-before edges from sync.Pool inside package
 // regexp (DESIGN §2.4), so a data-race class gets a few fresh-process attempts.
 func execPlanFreshFor(workdir string, plan []byte, prop string, v Violation) (*RunResult, error) {
-	attempts := 1
+	attempts := 2 // a changed library may itself be nondeterministic (pools, maps)
 	if v.Oracle == "C13/data-race" {
 		attempts = 4
 	}
@@ -326,11 +327,19 @@ func drive(cfg driveCfg) int {
 		stSeeds = 200
 	}
 	st := selfTest(cfg, stSeeds)
-	if st.Mismatches > 0 || st.Error != "" {
-		fmt.Printf("MACHINERY: determinism self-test failed: %d mismatches %s\n", st.Mismatches, st.Error)
+	if st.Error != "" && st.Processes < 2 {
+		fmt.Printf("MACHINERY: determinism self-test could not run: %s\n", st.Error)
 		return 2
 	}
-	fmt.Printf("# determinism self-test: %d plans x %d processes, 0 mismatches\n", st.Plans, st.Processes)
+	nondeterministic := st.Mismatches > 0
+	if nondeterministic {
+		// Identical plans gave different results in fresh processes.  On the unchanged tree this never
+		// happens; when it does, either the tree under test behaves nondeterministically or the
+		// machinery is broken.  Keep exploring: a confirmed violation explains it, otherwise exit 2.
+		fmt.Printf("# WARNING: determinism self-test: %d mismatches between fresh processes running identical plans (%s)\n", st.Mismatches, st.Error)
+	} else {
+		fmt.Printf("# determinism self-test: %d plans x %d processes (GOMAXPROCS %v) + %d single-plan processes, 0 mismatches\n", st.Plans, st.Processes, st.GOMAXPROCS, st.Isolated)
+	}
 
 	// 2. exploration
 	seeds := []uint64{cfg.seed}
@@ -417,6 +426,8 @@ func drive(cfg driveCfg) int {
 	exit := 0
 	nViol, nKnown := 0, 0
 	var reported []map[string]interface{}
+	var unconfirmed []string
+	all = append(all, st.historyViolations...)
 	for _, v := range all {
 		key := v.Oracle + "|" + v.Site
 		if seen[key] {
@@ -425,13 +436,18 @@ func drive(cfg driveCfg) int {
 		seen[key] = true
 		final, confirmed, note := minimiseAndConfirm(cfg, eng, v)
 		if !confirmed {
-			fmt.Printf("MACHINERY: violation %s did not reproduce in a fresh process (%s)\n", key, note)
-			return 2
+			fmt.Printf("# NOTE: %s was seen by a worker but did not reproduce in a fresh process, neither alone nor after the plans that ran before it (%s)\n", key, note)
+			unconfirmed = append(unconfirmed, key)
+			continue
 		}
-		path := filepath.Join(cfg.replays, fmt.Sprintf("%s-%s.json", cfg.prop, digestBytes(final.Plan, []byte(final.Oracle))))
+		path := filepath.Join(cfg.replays, fmt.Sprintf("%s-%s.json", cfg.prop, digestBytes(final.Plan, []byte(final.Oracle), mustJSON(final.Prefix))))
 		rf := map[string]interface{}{"property": final.Property, "oracle": final.Oracle, "site": final.Site, "detail": final.Detail,
 			"plan": final.Plan, "observed": final.Observed, "expected": final.Expected, "verif_seed": cfg.seed,
 			"minimisation": note, "replay": fmt.Sprintf("/verif/bin/check replay %s", path)}
+		if len(final.Prefix) > 0 {
+			rf["prefix"] = final.Prefix
+			rf["prefix_note"] = "the violation shows only after these plans ran earlier in the same process: the library keeps state across independent calls/policies"
+		}
 		if eng.Describe != nil {
 			rf["plan_shape"] = eng.Describe(final.Plan)
 		}
@@ -469,6 +485,7 @@ func drive(cfg driveCfg) int {
 		"notes":                  tot.Notes,
 		"determinism_selftest":   st,
 		"violations_reported":    reported,
+		"unconfirmed_classes":    unconfirmed,
 		"real_components":        realComponents,
 		"simulated_components":   simulatedComponents[cfg.prop],
 		"uncontrolled":           uncontrolled[cfg.prop],
@@ -501,6 +518,14 @@ func drive(cfg driveCfg) int {
 		cfg.prop, cfg.tier, tot.Runs, tot.Evals, distinctNT, nViol, nKnown, wall, float64(tot.Runs)/exploreWall.Hours())
 	if tot.Runs == 0 || distinctNT < 2 {
 		fmt.Println("MACHINERY: nothing non-trivial was explored")
+		return 2
+	}
+	if exit == 0 && nKnown == 0 && len(unconfirmed) > 0 {
+		fmt.Printf("MACHINERY: %d violation class(es) seen during exploration could not be reproduced in a fresh process: %v\n", len(unconfirmed), unconfirmed)
+		return 2
+	}
+	if exit == 0 && nondeterministic {
+		fmt.Println("MACHINERY: identical plans gave different results in fresh processes and no violation explains it")
 		return 2
 	}
 	return exit
@@ -557,6 +582,9 @@ func readInstrReport(path string) interface{} {
 }
 
 func minimiseAndConfirm(cfg driveCfg, eng *Engine, v Violation) (Violation, bool, string) {
+	if v.Oracle == historyOracle[cfg.prop] && len(v.Prefix) > 0 {
+		return confirmHistory(cfg, v)
+	}
 	fails := func(cand []byte) *Violation {
 		if eng.InProcessShrink {
 			rr, err := eng.Run(cand)
@@ -575,7 +603,12 @@ func minimiseAndConfirm(cfg driveCfg, eng *Engine, v Violation) (Violation, bool
 	rr, err := execPlanFreshFor(cfg.workdir, v.Plan, cfg.prop, v)
 	orig := sameClass(rr, v)
 	if orig == nil {
-		return v, false, fmt.Sprintf("original plan: %v", err)
+		// Not reproducible alone.  If the library keeps state across independent calls the
+		// violation may need the plans that ran before it in the worker: replay that history.
+		if sv, ok, note := confirmWithPrefix(cfg, eng, v); ok {
+			return sv, true, note
+		}
+		return v, false, fmt.Sprintf("single plan: %v", err)
 	}
 	note := "not minimised"
 	if eng.Shrink != nil {
@@ -596,18 +629,132 @@ func minimiseAndConfirm(cfg driveCfg, eng *Engine, v Violation) (Violation, bool
 	return *orig, true, note
 }
 
+// execSeqFresh runs prefix plans and then the plan in one fresh process; the result is the last plan's.
+func execSeqFresh(workdir string, prefix []json.RawMessage, plan []byte, prop string) (*RunResult, error) {
+	seq := map[string]interface{}{"sequence": append(append([]json.RawMessage{}, prefix...), json.RawMessage(plan))}
+	return execPlanFresh(workdir, mustJSON(seq), prop)
+}
+
+// confirmWithPrefix rebuilds the plans the worker ran before the violating one (same stream,
+// same shard), replays them plus the plan in a fresh process and shrinks the prefix.
+func confirmWithPrefix(cfg driveCfg, eng *Engine, v Violation) (Violation, bool, string) {
+	if v.NShards == 0 {
+		return v, false, ""
+	}
+	var prefix []json.RawMessage
+	for i := v.Shard; i < v.Idx; i += v.NShards {
+		prefix = append(prefix, json.RawMessage(mustJSON(eng.Gen(v.StreamSeed, i, cfg.tier))))
+	}
+	if len(prefix) > 400 {
+		prefix = prefix[len(prefix)-400:]
+	}
+	if len(prefix) == 0 {
+		return v, false, ""
+	}
+	check := func(pre []json.RawMessage) *Violation {
+		for a := 0; a < 2; a++ {
+			rr, err := execSeqFresh(cfg.workdir, pre, v.Plan, cfg.prop)
+			if err == nil {
+				if got := sameClass(rr, v); got != nil {
+					return got
+				}
+			}
+		}
+		return nil
+	}
+	got := check(prefix)
+	if got == nil {
+		return v, false, ""
+	}
+	full := len(prefix)
+	budget := 40
+	// ddmin over the prefix
+	for n := 2; len(prefix) > 0 && budget > 0; {
+		chunk := (len(prefix) + n - 1) / n
+		reduced := false
+		for st := 0; st < len(prefix) && budget > 0; st += chunk {
+			en := st + chunk
+			if en > len(prefix) {
+				en = len(prefix)
+			}
+			cand := append(append([]json.RawMessage{}, prefix[:st]...), prefix[en:]...)
+			budget--
+			if g := check(cand); g != nil {
+				prefix, got, reduced = cand, g, true
+				if n > 2 {
+					n--
+				}
+				break
+			}
+		}
+		if !reduced {
+			if chunk <= 1 {
+				break
+			}
+			n *= 2
+			if n > len(prefix) {
+				n = len(prefix)
+			}
+		}
+	}
+	out := *got
+	out.Prefix = prefix
+	out.Detail += fmt.Sprintf(" [reproduces only after %d earlier plan(s) ran in the same process (shrunk from %d): the library keeps state across independent calls or policies]", len(prefix), full)
+	return out, true, fmt.Sprintf("single plan does not fail alone in a fresh process; fails after a prefix of %d earlier plans (shrunk from %d), re-executed in a fresh process", len(prefix), full)
+}
+
+// historyOracle: the class reported when a plan's results depend on plans run earlier in the process.
+var historyOracle = map[string]string{
+	"C13": "C13/depends-on-earlier-calls",
+	"C17": "C17/cross-policy-state",
+}
+
+// confirmHistory re-checks a history-dependence finding (digest alone != digest after prefix) and shrinks the prefix.
+func confirmHistory(cfg driveCfg, v Violation) (Violation, bool, string) {
+	alone, err := execPlanFresh(cfg.workdir, v.Plan, cfg.prop)
+	if err != nil {
+		return v, false, err.Error()
+	}
+	differs := func(pre []json.RawMessage) bool {
+		rr, err := execSeqFresh(cfg.workdir, pre, v.Plan, cfg.prop)
+		return err == nil && rr.Digest != alone.Digest
+	}
+	prefix := v.Prefix
+	if !differs(prefix) {
+		return v, false, "history dependence did not reproduce"
+	}
+	// and the solo digest must be stable
+	if again, err := execPlanFresh(cfg.workdir, v.Plan, cfg.prop); err != nil || again.Digest != alone.Digest {
+		return v, false, "the plan's result is not stable even alone (nondeterminism, not history dependence)"
+	}
+	full := len(prefix)
+	for i := len(prefix) - 1; i >= 0 && len(prefix) > 1; i-- {
+		cand := append(append([]json.RawMessage{}, prefix[:i]...), prefix[i+1:]...)
+		if differs(cand) {
+			prefix = cand
+		}
+	}
+	out := v
+	out.Prefix = prefix
+	out.Detail = fmt.Sprintf("the same plan gives result digest %s when run alone in a fresh process and a different one after %d unrelated plan(s) (shrunk from %d) ran earlier in the same process: results depend on earlier calls on other policies", alone.Digest, len(prefix), full)
+	return out, true, "history-dependence confirmed in fresh processes; prefix shrunk"
+}
+
 // ---- determinism self-test ----
 
 type SelfTest struct {
-	Plans      int    `json:"plans"`
-	Processes  int    `json:"processes"`
-	GOMAXPROCS []int  `json:"gomaxprocs"`
-	Mismatches int    `json:"mismatches"`
-	Error      string `json:"error,omitempty"`
+	Plans             int    `json:"plans"`
+	Processes         int    `json:"processes"`
+	GOMAXPROCS        []int  `json:"gomaxprocs"`
+	Mismatches        int    `json:"mismatches"`
+	Isolated          int    `json:"single_plan_processes"`
+	HistoryMismatches int    `json:"history_mismatches"` // plan result differs between "alone in a fresh process" and "after earlier plans"
+	Error             string `json:"error,omitempty"`
+	historyViolations []Violation
 }
 
-func selfTest(cfg driveCfg, n int) SelfTest {
-	st := SelfTest{Plans: n}
+func selfTest(cfg driveCfg, n int) (st SelfTest) {
+	st = SelfTest{Plans: n}
 	procs := []int{1, 4, 16}
 	if cfg.tier == "quick" {
 		procs = []int{1, 16}
@@ -653,6 +800,11 @@ func selfTest(cfg driveCfg, n int) SelfTest {
 		return st
 	}
 	ref := strings.Split(string(outs[0]), "\n")
+	defer func() {
+		if st.Mismatches == 0 {
+			isolatedTest(cfg, n, ref, &st)
+		}
+	}()
 	for _, o := range outs[1:] {
 		ls := strings.Split(string(o), "\n")
 		if len(ls) != len(ref) {
@@ -671,9 +823,62 @@ func selfTest(cfg driveCfg, n int) SelfTest {
 	return st
 }
 
-func runDigest(prop, tier string, seed uint64, n int) int {
+// isolatedTest runs a sample of the self-test plans each in its own fresh process and compares with
+// the sequential processes: a difference means results depend on what ran earlier in the process.
+func isolatedTest(cfg driveCfg, n int, ref []string, st *SelfTest) {
+	eng := engines[cfg.prop]
+	seed := Mix(cfg.seed, 0x5e1f)
+	step := 1
+	if n > 60 {
+		step = n / 60
+	}
+	type res struct {
+		idx  int
+		line string
+	}
+	var mu sync.Mutex
+	var got []res
+	sem := make(chan struct{}, 12)
+	var wg sync.WaitGroup
+	for idx := step; idx < n; idx += step { // idx 0 is alone in its process anyway
+		wg.Add(1)
+		go func(idx int) {
+			defer wg.Done()
+			sem <- struct{}{}
+			defer func() { <-sem }()
+			so, _, code := execSelf(10*time.Minute, append(workerEnvBase(cfg), fmt.Sprintf("GOMAXPROCS=%d", workerGOMAXPROCS(cfg))),
+				"digest", "-prop", cfg.prop, "-tier", cfg.tier, "-seed", strconv.FormatUint(seed, 10), "-from", strconv.Itoa(idx), "-n", strconv.Itoa(idx+1))
+			if code == 0 {
+				mu.Lock()
+				got = append(got, res{idx, strings.TrimSpace(string(so))})
+				mu.Unlock()
+			}
+		}(idx)
+	}
+	wg.Wait()
+	sort.Slice(got, func(i, j int) bool { return got[i].idx < got[j].idx })
+	st.Isolated = len(got)
+	for _, g := range got {
+		if g.idx < len(ref) && strings.TrimSpace(ref[g.idx]) != g.line {
+			st.HistoryMismatches++
+			if ho := historyOracle[cfg.prop]; ho != "" && len(st.historyViolations) == 0 {
+				var prefix []json.RawMessage
+				for i := 0; i < g.idx; i++ {
+					prefix = append(prefix, json.RawMessage(mustJSON(eng.Gen(seed, i, cfg.tier))))
+				}
+				st.historyViolations = append(st.historyViolations, Violation{Property: cfg.prop, Oracle: ho, Site: "history",
+					Detail: "plan result differs between a fresh process and a process that ran other plans first",
+					Plan:   mustJSON(eng.Gen(seed, g.idx, cfg.tier)), Prefix: prefix})
+			} else if ho == "" {
+				fmt.Printf("# WARNING: plan %d of the self-test stream gives a different result alone than after earlier plans (state kept across calls; no verdict under %s)\n", g.idx, cfg.prop)
+			}
+		}
+	}
+}
+
+func runDigest(prop, tier string, seed uint64, from, n int) int {
 	eng := engines[prop]
-	for idx := 0; idx < n; idx++ {
+	for idx := from; idx < n; idx++ {
 		plan := mustJSON(eng.Gen(seed, idx, tier))
 		res, err := eng.Run(plan)
 		if err != nil {
